@@ -127,3 +127,128 @@ def exactQ (d : Doc) : TotalsQ :=
     due := payable - advances }
 
 end GoblVerif.Spec.C01
+
+/-! ## weights of the error bound and the decidable document class of `Props.C01.calc_eq_spec`
+
+The weights count rounding points in half-units of the working precision (currency + 2 decimals);
+`inDocC` decides the document class for which Props/C01 proves the bound
+(`Proofs/CalcErrorMore.lean`: `inDocC_sound`).  Core Lean only: the driver evaluates both. -/
+
+namespace GoblVerif.Calc.Err
+open GoblVerif GoblVerif.Calc
+
+/-- weight of a line: one rounding for price × quantity, and for every discount / charge its own
+rounding plus the propagated error of the line sum (percentage ≤ 100 %) -/
+def lineW (l : Line) : Nat := 1 + 2 * (l.discounts.length + l.charges.length)
+
+/-- total weight of the lines -/
+def sumW (ls : List Line) : Nat := (ls.map lineW).sum
+
+/-- weight of `total` before the included tax is taken out: the lines' weight carried through
+1 − Σ discount % + Σ charge %, plus one rounding per document discount / charge -/
+def totalW (d : Doc) : Nat :=
+  sumW d.lines * (1 + d.discounts.length + d.charges.length) + d.discounts.length + d.charges.length
+
+/-- weight of a combo: its percentage, and its surcharge when it has one -/
+def cW (cb : Combo) : Nat := if cb.surcharge.isSome then 2 else 1
+
+def comboW (taxes : List Combo) : Nat := (taxes.map cW).sum
+
+/-- weight of a rate group: its amount, and its surcharge when it has one -/
+def rateW (rt : RateTotal) : Nat := if rt.surcharge.isSome then 2 else 1
+
+def ratesW (rts : List RateTotal) : Nat := (rts.map rateW).sum
+
+/-- number of rounding points of a tax summary: one per rate group, one more when the group has a
+surcharge (without surcharges: the number of rate groups) -/
+def groupsOf (cats : List CatTotal) : Nat := (cats.map (fun ct => ratesW ct.rates)).sum
+
+/-- error carried into the tax by the line totals: weight of the line × number of its combos -/
+def linesTaxW (ls : List Line) : Nat := (ls.map (fun l => lineW l * comboW l.taxes)).sum
+
+/-- … and by the document discounts / charges: (own rounding + weight of the sum) × combos -/
+def adjTaxW (W : Nat) (xs : List DocAdj) : Nat := (xs.map (fun x => (1 + W) * comboW x.taxes)).sum
+
+/-- weight of the tax: one rounding per rate group (`G` groups) plus the carried errors -/
+def taxW (d : Doc) (G : Nat) : Nat :=
+  G + linesTaxW d.lines + adjTaxW (sumW d.lines) d.discounts + adjTaxW (sumW d.lines) d.charges
+
+/-- weight of the discount / charge total: per row its own rounding plus the weight of the sum -/
+def adjW (W k : Nat) : Nat := k * (1 + W)
+
+/-- weight of total-with-tax and payable -/
+def twtW (d : Doc) (G : Nat) : Nat := totalW d + taxW d G
+
+/-- weight of the advances total: per advance one rounding plus the weight of total-with-tax -/
+def advW (d : Doc) (G : Nat) : Nat := d.advances.length * (1 + twtW d G)
+
+/-- weight of the amount due -/
+def dueW (d : Doc) (G : Nat) : Nat := twtW d G + advW d G
+
+/-- number of rate groups of the tax summary shown with the totals -/
+def groupsT (t : Totals) : Nat :=
+  match t.taxes with
+  | some tx => groupsOf tx.cats
+  | none => 0
+
+
+/-- |p| ≤ 100 %, decided on the integers -/
+def pctLe1 (p : Pct) : Bool := decide (p.amount.value.natAbs ≤ 10 ^ p.amount.exp)
+
+def adjOkB (c : Nat) (d : LineAdj) : Bool :=
+  d.rate.isNone &&
+  (match d.percent with
+   | some p =>
+     if pctIsZero p then decide (d.amount.exp ≤ c + 2)
+     else pctLe1 p && (match d.base with | none => true | some b => decide (b.exp ≤ c + 2))
+   | none => decide (d.amount.exp ≤ c + 2))
+
+def adjLineB (c : Nat) (l : Line) : Bool :=
+  match l.item with
+  | some it => it.cur == "" && it.price.isSome && l.breakdown.isEmpty &&
+      l.discounts.all (adjOkB c) && l.charges.all (adjOkB c)
+  | none => false
+
+def docAdjOkB (c : Nat) (x : DocAdj) : Bool :=
+  match x.percent with
+  | some p =>
+    if pctIsZero p then decide (x.amount.exp ≤ c + 2)
+    else pctLe1 p && (match x.base with | none => true | some b => decide (b.exp ≤ c + 2))
+  | none => decide (x.amount.exp ≤ c + 2)
+
+def comboOkB (ret : String → Bool) (cb : Combo) : Bool :=
+  cb.retained == ret cb.cat &&
+  (match cb.percent with | some p => pctLe1 p | none => true) &&
+  (match cb.surcharge with | some sp => pctLe1 sp | none => true)
+
+def advOkB (c : Nat) (a : Advance) : Bool :=
+  match a.percent with
+  | some p => pctLe1 p
+  | none => decide (a.amount.exp ≤ c + 2)
+
+def allCombos (d : Doc) : List Combo :=
+  d.lines.flatMap (·.taxes) ++ d.discounts.flatMap (·.taxes) ++ d.charges.flatMap (·.taxes)
+
+/-- which categories a document treats as retained: the flag of the first combo of the category -/
+def retOf (d : Doc) (k : String) : Bool :=
+  match (allCombos d).find? (fun cb => cb.cat == k) with
+  | some cb => cb.retained
+  | none => false
+
+/-- the document class `DocC (retOf d) d` of `Props.C01.calc_eq_spec`, decided -/
+def inDocC (d : Doc) : Bool :=
+  d.rule == .precise && !d.lines.isEmpty && d.lines.all (adjLineB d.c) &&
+  d.discounts.all (docAdjOkB d.c) && d.charges.all (docAdjOkB d.c) && d.includes.isNone &&
+  d.lines.all (fun l => l.taxes.all (comboOkB (retOf d))) &&
+  d.discounts.all (fun x => x.taxes.all (comboOkB (retOf d))) &&
+  d.charges.all (fun x => x.taxes.all (comboOkB (retOf d))) &&
+  (match d.rounding with | some x => decide (x.exp ≤ d.c + 2) | none => true) &&
+  d.advances.all (advOkB d.c)
+
+/-- the largest weight of a calculated document (that of the amount due); 0 when nothing was calculated -/
+def docWeight (d : Doc) : Nat :=
+  match calculate exactOps d with
+  | .ok out => (match out.totals with | some t => dueW d (groupsT t) | none => 0)
+  | .error _ => 0
+
+end GoblVerif.Calc.Err
